@@ -549,8 +549,6 @@ def explore(fn, pre=(), max_paths=4096, timeout_ms=10000, max_decisions=400):
                 outcome, value = "unsupported", e
             except PathLimit as e:
                 outcome, value = "unsupported", e
-            except RecursionError as e:
-                outcome, value = "unsupported", e
             except Exception as e:        # the real code raised: a path outcome
                 outcome, value = "exc", e
         finally:
